@@ -23,6 +23,7 @@ EXPLANATION = (
     "property names); shape of APIIntEnum.convert/convert_list, from_pb, __post_init__, from_dict and the float-fix guard. "
     "Decides the table clauses of the property; numeric rounding and value round-trips for all inputs are not decided."
     ' Added: the float conversion is not memoised; model conversions never choose between dictionary entries by truthiness.'
+    ' Also: no two fields share the metadata mapping the converter is recorded in.'
 )
 ASSUMPTIONS = [
     "api.proto text equals the compiled descriptor (decided by C13.R2)",
